@@ -338,7 +338,8 @@ func findIDInQueue[M interface{ ID() EventID }](q *queue[M], id EventID, autoID 
 
 		pos := -1
 		if delta := id - firstID; id >= firstID {
-			if delta >= uint64(q.count) { //nolint:gosec // int always positive
+			// The newest ID (delta == count-1) has nothing after it, just like an ID not yet issued.
+			if delta >= uint64(q.count)-1 { //nolint:gosec // int always positive
 				return -1
 			}
 			pos = int(delta) //nolint:gosec // delta < q.count, which is an int
@@ -365,7 +366,8 @@ func findIDInQueue[M interface{ ID() EventID }](q *queue[M], id EventID, autoID 
 		i++
 		if i == len(q.buf) {
 			i = 0
-		} else if i == q.tail {
+		}
+		if i == q.tail {
 			i = -1
 		}
 	}
